@@ -585,19 +585,42 @@ def netrefFactory (idp : IdPack) : M Unit := do
     let _ ← prim { kind := .mkclass, subj := .imm (.tuple [.str idp.1, idp.2.1, idp.2.2]), args := [methods] }
     if zeroIid idp.2.2 then modify (fun st => { st with classes := st.classes ++ [idp] }) else pure ()
 
-/-- `_unbox(package)` for an arbitrary decoded value -/
-def unbox : Nat → Val → M PV
+/-- a package after `_resolve_local_refs`: every LOCAL_REF replaced by the object it names -/
+inductive Pkg where
+  /-- `(_RESOLVED, obj)` -/
+  | res (o : Nat)
+  /-- `(LABEL_TUPLE, (…))` with its members resolved -/
+  | node (items : List Pkg)
+  /-- any other pair, untouched (its label is judged in the second pass) -/
+  | leaf (label value : Val)
+  deriving Repr, Inhabited
+
+/-- `_resolve_local_refs(package)`, the first pass of `_unbox`: walks the whole package through nested TUPLEs; the
+unpacking errors and the `KeyError` of an identifier that is not in THIS connection's table arise here, before any
+proxy is created (so before any `HANDLE_INSPECT` round trip).  It reads the table and changes nothing. -/
+def resolve : Nat → Val → M Pkg
   | 0, _ => throwE .recursionError
   | f + 1, pkg => do
     let (label, value) ← liftE (unpack2 pkg)
-    if pyEqNat label Gen.Handlers.labelValue then pure (.imm value)
-    else if pyEqNat label Gen.Handlers.labelTuple then do
+    if pyEqNat label Gen.Handlers.labelTuple then do
       let items ← liftE (iterVal value)
-      let xs ← inGenerator (mapM' (fun x => unbox f x) items)
-      pure (mkTuple xs)
+      let xs ← inGenerator (mapM' (fun x => resolve f x) items)
+      pure (.node xs)
     else if pyEqNat label Gen.Handlers.labelLocalRef then do
       let o ← tableGet value
-      pure (.obj o)
+      pure (.res o)
+    else pure (.leaf label value)
+
+/-- `_unbox(package, _resolved=True)`, the second pass: by value, tuples, the resolved objects, proxies for
+REMOTE_REFs (which may ask the peer: `_netref_factory`), `ValueError` for any other label -/
+def unbox2 : Nat → Pkg → M PV
+  | 0, _ => throwE .recursionError
+  | _ + 1, .res o => pure (.obj o)
+  | f + 1, .node xs => do
+    let ys ← inGenerator (mapM' (fun x => unbox2 f x) xs)
+    pure (mkTuple ys)
+  | _ + 1, .leaf label value =>
+    if pyEqNat label Gen.Handlers.labelValue then pure (.imm value)
     else if pyEqNat label Gen.Handlers.labelRemoteRef then do
       let v0 ← liftE (indexVal value 0)
       let v1 ← liftE (indexVal value 1)
@@ -611,6 +634,11 @@ def unbox : Nat → Val → M PV
         modify (fun st => { st with proxies := st.proxies ++ [idp] })
         pure (.proxy idp.1 v1 v2)
     else throwE .valueError
+
+/-- `_unbox(package)` for an arbitrary decoded value: resolve, then build -/
+def unbox (f : Nat) (pkg : Val) : M PV := do
+  let p ← resolve f pkg
+  unbox2 f p
 
 def unboxTop (pkg : Val) : M PV := do
   let c ← getCtx
